@@ -91,7 +91,7 @@ pub fn valid_const(rng: &mut Rng, s: &FlatSchema, ty: &TyRef, depth: usize, simp
             let v = valid_const(rng, s, t, depth, simple);
             if v == Val::Null {
                 // only happens when depth ran out; fall back to the simplest non-null value
-                return simplest_non_null(s, t);
+                return simplest_non_null(s, t, simple);
             }
             v
         }
@@ -118,9 +118,11 @@ pub fn valid_const(rng: &mut Rng, s: &FlatSchema, ty: &TyRef, depth: usize, simp
     }
 }
 
-fn simplest_non_null(s: &FlatSchema, ty: &TyRef) -> Val {
+/// With `simple` (C24 envelope) an object literal also spells out every field that has a default,
+/// with that default: graphql-js fills omitted defaulted fields in before it prints a default value.
+fn simplest_non_null(s: &FlatSchema, ty: &TyRef, simple: bool) -> Val {
     match ty {
-        TyRef::NonNull(t) => simplest_non_null(s, t),
+        TyRef::NonNull(t) => simplest_non_null(s, t, simple),
         TyRef::List(_) => Val::List(vec![]),
         TyRef::Named(n) => match n.as_str() {
             "Int" => Val::Int(0),
@@ -132,8 +134,11 @@ fn simplest_non_null(s: &FlatSchema, ty: &TyRef) -> Val {
                 Some(t) if t.kind == Kind::Input => Val::Obj(
                     t.input_fields
                         .iter()
-                        .filter(|f| f.ty.is_non_null() && f.default.is_none())
-                        .map(|f| (f.name.clone(), simplest_non_null(s, &f.ty)))
+                        .filter(|f| (f.ty.is_non_null() && f.default.is_none()) || (simple && f.default.is_some()))
+                        .map(|f| match &f.default {
+                            Some(d) => (f.name.clone(), d.clone()),
+                            None => (f.name.clone(), simplest_non_null(s, &f.ty, simple)),
+                        })
                         .collect(),
                 ),
                 _ => Val::Int(1),
@@ -164,7 +169,8 @@ fn named_const(rng: &mut Rng, s: &FlatSchema, n: &str, depth: usize, simple: boo
         "Boolean" => Val::Bool(rng.bool()),
         "ID" => {
             if simple || rng.bool() {
-                Val::Str(rng.pick_str(&["id1", "42"]).to_string())
+                // C24 envelope: graphql-js prints an integer-looking ID default without quotes
+                Val::Str(rng.pick_str(if simple { &["id1", "a42"] } else { &["id1", "42"] }).to_string())
             } else {
                 Val::Int(rng.below(100) as i64)
             }
@@ -173,12 +179,13 @@ fn named_const(rng: &mut Rng, s: &FlatSchema, n: &str, depth: usize, simple: boo
             Some(t) if t.kind == Kind::Enum => Val::Enum(rng.pick(&t.values).name.clone()),
             Some(t) if t.kind == Kind::Input => {
                 if depth == 0 {
-                    return simplest_non_null(s, &TyRef::named(n));
+                    return simplest_non_null(s, &TyRef::named(n), simple);
                 }
                 let mut fields = Vec::new();
                 for f in &t.input_fields {
                     let required = f.ty.is_non_null() && f.default.is_none();
-                    if required || rng.chance(1, 2) {
+                    // C24 envelope: never omit a field that has a default (graphql-js would print it)
+                    if required || (simple && f.default.is_some()) || rng.chance(1, 2) {
                         fields.push((f.name.clone(), valid_const(rng, s, &f.ty, depth - 1, simple)));
                     }
                 }
